@@ -23,7 +23,10 @@ import (
 //                                        (destination k receives result column k; without a row nothing is stored)
 //   for rows.Next() { .. }               for { if !rows.Next() { break }; .. }: a Fixpoint on fuel S (rows to come)
 //   switch tag { case a: .. default: .. }   if String.eqb tag a then .. else .. (cases in source order, default last)
-//   switch v := x.(type) { .. }          match x with DBytes v => .. | DInt v => .. | .. | _ => default end
+//   switch v := x.(type) { .. }          match x with DBytes v => .. | DInt v => .. | DBool v => .. | .. | _ => default end
+//                                        (one branch per case the SOURCE lists: []uint8, int64, float64, time.Time, string, bool, nil)
+//   append(c, v) into a []interface{}    AVal (VInt v) .. ; a []byte value kept: AVal (VBlob (bytes_blob v)); string(b): AVal (VText (bytes_text b));
+//                                        a bool: AVal (value_of_bool v) (the integer the driver binds it as)
 //   for i, x := range s / return inside a range loop    wrange_loop over zindexed s / rrange_loop with RRet
 //   if init; cond { }                    init; if cond { }   (init an assignment with =)
 //   *p, x.([]byte), s[i]                 wdo t <- wderef p / assert_bytes x / widx s i   (the Go panics are error values)
@@ -65,6 +68,7 @@ const (
 	gsFloat     = "float64"
 	gsTime      = "time"
 	gsNilIface  = "niliface"
+	gsGoBool    = "gobool"
 	gsGFeat     = "gfeat"
 	gsOChan     = "ochan"
 	gsCSql      = "csql"
@@ -103,6 +107,7 @@ var gsModelled = []string{
 	"Table / column / gpkg.SpatialReferenceSystem         the model's table / column / srs (column.notnull, column.pk: bool, N;",
 	"                                                     column.cid, column.dfltValue: written by Scan, read by nothing, not represented)",
 	"featureGPKG / chan<- processing.Feature              gfeat / ochan;  []interface{} of column values: list anyv;  the driver's values: drv",
+	"a []byte / string(b) / a bool appended to the column values      AVal (VBlob (bytes_blob b)) / AVal (VText (bytes_text b)) / AVal (value_of_bool v) (bound by the driver as integer 1 / 0)",
 	"the caller's log.Fatalf on the error of CreateTables (main.go)      outcome",
 }
 
@@ -161,7 +166,7 @@ func init() {
 	for k, v := range map[string]string{gsCWorld: "cworld", gsSrcDb: "srcdb", gsSource: "source", gsTables: "(list table)", gsGType: "N", gsDef: "N",
 		gsStrPtr: "(option string)", gsIntPtr: "(option Z)", gsBool01: "bool", gsPkN: "N", gsCurGC: "(cursor gcrow)", gsCurTI: "(cursor tirow)",
 		gsCurSel: "(cursor (list drv))", gsRowSrs: "(option ssrs)", gsDrv: "drv", gsDrvs: "(list drv)", gsBytes: "bytesv", gsText: "N", gsInt64: "Z",
-		gsFloat: "Z", gsTime: "Z", gsNilIface: "drv", gsGFeat: "gfeat", gsOChan: "ochan", gsCSql: "csql", gsQSql: "qsql", gsTabDesc: "tabledesc",
+		gsFloat: "Z", gsTime: "Z", gsNilIface: "drv", gsGoBool: "bool", gsGFeat: "gfeat", gsOChan: "ochan", gsCSql: "csql", gsQSql: "qsql", gsTabDesc: "tabledesc",
 		gsMaybeBool: "Z", gsSBin: "geom"} {
 		gwCoq[k] = v
 	}
@@ -469,6 +474,12 @@ func (s *gsch) conv(v gwVal, ty string) (string, bool) {
 		return "(AVal (VTime " + v.code + "))", true
 	case ty == gwAny && v.ty == gsNilIface:
 		return "(AVal VNull)", true
+	case ty == gwAny && v.ty == gsBytes:
+		// a []byte kept as it is (fix 4dc32dc, F19): a blob value; string(b) is the text with the same content (gsText above)
+		return "(AVal (VBlob (bytes_blob " + v.code + ")))", true
+	case ty == gwAny && v.ty == gsGoBool:
+		// a Go bool as an attribute value: nothing but stmt.Exec consumes it, and the driver binds it as integer 1 / 0
+		return "(AVal (value_of_bool " + v.code + "))", true
 	}
 	return "", false
 }
@@ -1338,6 +1349,9 @@ func (s *gsch) typeSwitch(env *gwEnv, st *ast.TypeSwitchStmt, last bool, rest fu
 			con, ty = "DTime", gsTime
 		case "string":
 			con, ty = "DString", gsText
+		case "bool":
+			// fix 574d563 (F18): go-sqlite3 hands the integer cell of a column declared BOOLEAN over as a Go bool
+			con, ty = "DBool", gsGoBool
 		case "nil":
 			con, ty = "DNil", gsNilIface
 		default:
